@@ -1,6 +1,7 @@
 mod charsdump;
 mod mtrace;
 mod ptrace;
+mod sorttrace;
 mod strace;
 mod utrace;
 mod universe;
@@ -32,6 +33,7 @@ fn main() {
         "pattern-trace" => ptrace::run(&get("tier", "quick"), get("seed", "1").parse().unwrap(), get("shards", "8").parse().unwrap(), &get("out", "/verif/work/ptrace")),
         "utf32-trace" => utrace::run(&get("tier", "quick"), get("seed", "1").parse().unwrap(), get("shards", "8").parse().unwrap(), &get("out", "/verif/work/utrace")),
         "score-trace" => strace::run(&get("tier", "quick"), get("seed", "1").parse().unwrap(), get("shards", "8").parse().unwrap(), &get("out", "/verif/work/strace")),
+        "sort-trace" => sorttrace::run(&get("tier", "quick"), get("seed", "1").parse().unwrap(), get("shards", "8").parse().unwrap(), &get("out", "/verif/work/sorttrace")),
         "matcher-trace" => {
             let plan = mtrace::Plan {
                 tier: get("tier", "quick"),
